@@ -102,8 +102,12 @@ theorem stdgates_synthesised (fs : FS) (parse : String → Parsed) (search env :
       parseIncludedFiles fs parse search env fuel rest := by
   simp [parseIncludedFiles]
 
+/-- the include statements that name a file other than the virtual `stdgates.inc` (statements
+without a well-formed path name no file) -/
 def nonStd (l : List (Option (Option String))) : Nat :=
-  (l.filter fun x => x != some (some "stdgates.inc")).length
+  (l.filter fun x => match x with
+    | some (some p) => p != "stdgates.inc"
+    | _ => false).length
 
 /-- lock-step: exactly one parsed source per non-`stdgates.inc` include, in order -/
 theorem parseIncludedFiles_length (fs : FS) (parse : String → Parsed) (search env : Option (List String))
@@ -116,10 +120,16 @@ theorem parseIncludedFiles_length (fs : FS) (parse : String → Parsed) (search 
     | nil => simp [parseIncludedFiles] at h; subst h; rfl
     | cons x rest =>
       cases x with
-      | none => simp [parseIncludedFiles] at h
+      | none =>
+        simp only [parseIncludedFiles] at h
+        have := ih rest res h
+        simp [nonStd] at this ⊢; exact this
       | some y =>
         cases y with
-        | none => simp [parseIncludedFiles] at h
+        | none =>
+          simp only [parseIncludedFiles] at h
+          have := ih rest res h
+          simp [nonStd] at this ⊢; exact this
         | some fp =>
           simp only [parseIncludedFiles] at h
           split at h
@@ -128,7 +138,7 @@ theorem parseIncludedFiles_length (fs : FS) (parse : String → Parsed) (search 
             simp only [beq_iff_eq] at hstd
             simp [nonStd, hstd] at this ⊢; exact this
           · rename_i hstd
-            have hne : (some (some fp) != some (some "stdgates.inc")) = true := by
+            have hne : (fp != "stdgates.inc") = true := by
               simp only [beq_iff_eq] at hstd; simp [hstd]
             split at h
             · simp at h
@@ -164,11 +174,15 @@ theorem analysis_skipped_iff (fuel : Nat) (main : Parsed) (included : List PSrc)
 
 /-! ### witnesses of the unchanged code's failures -/
 
-/-- F16: `include;` (no path) panics in the include scan although the parse has errors -/
-theorem witness_include_without_path (fs : FS) (parse : String → Parsed) (search env) (fuel : Nat)
+/-- F16 (repaired by a `fix:` commit): an include statement without a path — `include;`, or
+`include "";` whose `""` is an empty bit string — is skipped by the include scan; the parser has
+reported it, so the gate stops the analysis -/
+theorem include_without_path_skipped (fs : FS) (parse : String → Parsed) (search env) (fuel : Nat)
     (rest) : parseIncludedFiles fs parse search env (fuel + 1) (none :: rest) =
-      .error (.panic "parse_included_files: include.file() is None") := by
-  simp [parseIncludedFiles]
+      parseIncludedFiles fs parse search env fuel rest ∧
+    parseIncludedFiles fs parse search env (fuel + 1) (some none :: rest) =
+      parseIncludedFiles fs parse search env fuel rest := by
+  constructor <;> simp [parseIncludedFiles]
 
 /-- F21: a readable file that includes itself: the scan never terminates (in the model: it runs
 out of ANY amount of fuel) -/
